@@ -43,6 +43,7 @@ theorem aligned_step (t : Mesh) (s : Step) (hq : s.quiet = true) (hc : Canon t) 
       exact ha p0 hp0 o ho hid
     · have hs' : isAssembled t = false := by simpa using hs
       rw [write_state_unassembled t hs' (canon_not_assembled t hc hs')]; exact ha
+  · exact ha
 
 theorem aligned_run (t : Mesh) (q : List Step) (hq : ∀ s ∈ q, s.quiet = true) (hc : Canon t) (ha : Aligned t) :
     Aligned (run t q) := by
@@ -214,6 +215,7 @@ theorem wf_step (m : Mesh) (s : Step) (h : WF m)
   | modify n k st => exact h
   | setDefault n k => exact h
   | merge a b => exact h
+  | addGeometry n ps => exact h
   | write =>
     show WF (write m).1
     rw [write_eq]
